@@ -1,23 +1,32 @@
 #!/usr/bin/env python3
-"""Prints the markdown table of kept seeded changes (DESIGN.md section 8) from seeded/*/meta.json."""
+"""Prints the markdown table of kept seeded changes (DESIGN.md section 8) from seeded/*/meta.json
+and seeded/last_run.tsv (written by run_seeded.sh)."""
 import json, glob, os
-rows = []
+here = os.path.dirname(os.path.abspath(__file__))
 last = {}
-lp = os.path.join(os.path.dirname(os.path.abspath(__file__)), "seeded", "last_run.tsv")
+lp = os.path.join(here, "seeded", "last_run.tsv")
 if os.path.exists(lp):
     for l in open(lp):
         f = l.rstrip("\n").split("\t")
         if len(f) >= 4:
-            last[f[0]] = (f[2], f[3])
-for d in sorted([d for d in glob.glob(os.path.join(os.path.dirname(os.path.abspath(__file__)), "seeded", "*")) if not os.path.basename(d).startswith("_")]):
-    mp = os.path.join(d, "meta.json")
-    if not os.path.exists(mp):
-        continue
-    m = json.load(open(mp))
-    rows.append((os.path.basename(d), m))
+            last[f[0]] = (f[2], f[3].strip())
 print("| seeded change | property | what it needs to manifest | caught by (quick tier) | caught before strengthening? |")
 print("|---|---|---|---|---|")
-for name, m in rows:
+for d in sorted(glob.glob(os.path.join(here, "seeded", "*"))):
+    name = os.path.basename(d)
+    mp = os.path.join(d, "meta.json")
+    if name.startswith("_") or not os.path.exists(mp):
+        continue
+    m = json.load(open(mp))
     first = m.get("caught_initially")
-    first_s = "yes" if first else ("no - " + m.get("strengthening", "")) if first is not None else "n/a (hand-written)"
-    print(f"| `{name}` | {m['property']} | {m.get('needs','')} | {m.get('caught_by', ("./check %s quick: %s" % (m['property'], last.get(name, ("?", ""))[1].strip())) if last.get(name, ("",))[0] == "yes" else "see run_seeded.sh")} | {first_s} |")
+    if first is None:
+        first_s = "n/a (hand-written)"
+    elif first:
+        first_s = "yes"
+    else:
+        first_s = "no - " + m.get("strengthening", "")
+    caught = m.get("caught_by")
+    if not caught:
+        res, kinds = last.get(name, ("?", ""))
+        caught = "./check %s quick: %s" % (m["property"], kinds) if res == "yes" else "see run_seeded.sh"
+    print("| `%s` | %s | %s | %s | %s |" % (name, m["property"], m.get("needs", ""), caught, first_s))
